@@ -6,6 +6,7 @@ package main
 import (
 	"bytes"
 	"context"
+	"encoding/binary"
 	"fmt"
 	"hash/crc32"
 	"math"
@@ -286,9 +287,14 @@ func runLayout(c *ctx, which string) {
 		c26Volume(c)
 		c26ReconfiguredMerge(c)
 	}
+	if which == "C18" {
+		c18SharedVocabulary(c)
+	}
 	if which == "C17" {
 		c17CopiedExternal(c)
 		c17EntryLess(c)
+		c17LargeBlocks(c)
+		c17TransientWriteFaults(c)
 	}
 }
 
@@ -405,10 +411,11 @@ func c26Volume(c *ctx) {
 // verbatim by a merge next to rebuilt blocks: every block of the merge output must still read back under its
 // own recorded compression and checksum, with the rows unchanged.
 func c17CopiedExternal(c *ctx) {
-	r := NewRng(c.seed, 171)
-	for i := 0; i < 8*c.scale; i++ {
+	comps := []bs.CompressionType{bs.CompressionNone, bs.CompressionSnappy, bs.CompressionZstd}
+	for i := 0; i < 18; i++ {
+		// the full grid: external compression x external checksum x the merging engine's compression
 		cfg := bs.DefaultBloomSearchEngineConfig()
-		cfg.RowDataCompression = pick(r, []bs.CompressionType{bs.CompressionNone, bs.CompressionSnappy, bs.CompressionZstd})
+		cfg.RowDataCompression = comps[i%3]
 		cfg.PartitionFunc = partitionFunc("p")
 		cfg.MaxBufferedTime = time.Hour
 		h := &History{Env: NewEnv(cfg), TM: tokModes[0], PartMode: "p", Rows: map[int]*StoredRow{}}
@@ -418,8 +425,8 @@ func c17CopiedExternal(c *ctx) {
 			return &StoredRow{ID: id, Go: row, Bytes: b, PID: pid, Vals: map[string]NumCase{}}
 		}
 		h.nextID = 10
-		h.ExtCompression = pick(r, []bs.CompressionType{bs.CompressionSnappy, bs.CompressionZstd, bs.CompressionNone})
-		withHash := r.Chance(0.4)
+		h.ExtCompression = comps[(i/3)%3]
+		withHash := i/9 == 1
 		extComp := h.ExtCompression
 		h.writeExternal(map[string][]*StoredRow{"b": {mk(1, "b", "external row in b "+strings.Repeat("pad ", 20))}, "zz": {mk(2, "zz", "external row copied verbatim "+strings.Repeat("pad ", 20))}}, func() bool { return withHash }, c.r)
 		h.ExtCompression = ""
@@ -563,6 +570,303 @@ func c26ReconfiguredMerge(c *ctx) {
 					c.r.Add(Finding{Kind: "violation", Check: "sizing", Detail: fmt.Sprintf("the merged block records rate %g; the merging engine is configured with %g", p, rates[1]), Replay: replay})
 				}
 			}
+		}
+		env.Stop()
+	}
+}
+
+// snappyFramingProblem checks bytes against the snappy framing format (the format the metadata value
+// "snappy" names): stream identifier first, known chunk types, and no chunk whose uncompressed length
+// exceeds the format's 65536-byte limit. It returns "" when the bytes are a well-formed stream.
+func snappyFramingProblem(b []byte) string {
+	if len(b) < 10 || string(b[:10]) != "\xff\x06\x00\x00sNaPpY" {
+		return fmt.Sprintf("does not start with the snappy stream identifier (starts with %q)", b[:min(10, len(b))])
+	}
+	i := 0
+	for i < len(b) {
+		if i+4 > len(b) {
+			return "truncated chunk header"
+		}
+		typ := b[i]
+		n := int(b[i+1]) | int(b[i+2])<<8 | int(b[i+3])<<16
+		i += 4
+		if i+n > len(b) {
+			return "chunk exceeds the stream"
+		}
+		body := b[i : i+n]
+		i += n
+		switch {
+		case typ == 0xff:
+			if string(body) != "sNaPpY" {
+				return fmt.Sprintf("stream identifier chunk holds %q", body)
+			}
+		case typ == 0x00:
+			if n < 5 {
+				return "compressed chunk too short"
+			}
+			ulen, k := binary.Uvarint(body[4:])
+			if k <= 0 {
+				return "compressed chunk without a length"
+			}
+			if ulen > 65536 {
+				return fmt.Sprintf("compressed chunk decodes to %d bytes; the snappy framing format allows at most 65536", ulen)
+			}
+		case typ == 0x01:
+			if n-4 > 65536 {
+				return fmt.Sprintf("uncompressed chunk of %d bytes; the snappy framing format allows at most 65536", n-4)
+			}
+		case typ >= 0x02 && typ <= 0x7f:
+			return fmt.Sprintf("reserved unskippable chunk type %#x", typ)
+		}
+	}
+	return ""
+}
+
+// c17LargeBlocks: blocks whose row data is far larger than a codec's internal chunk/window sizes, under every
+// compression type and zstd level, written by flush and by merge: the file reads back through the public
+// helpers, the rows are the rows written, queries return them, and bytes labelled "snappy" are a snappy stream.
+func c17LargeBlocks(c *ctx) {
+	r := NewRng(c.seed, 173)
+	type comp struct {
+		t     bs.CompressionType
+		level int
+	}
+	comps := []comp{{bs.CompressionNone, 0}, {bs.CompressionSnappy, 0}, {bs.CompressionZstd, 1}, {bs.CompressionZstd, 2}, {bs.CompressionZstd, 3}}
+	if c.tier == "thorough" {
+		comps = append(comps, comp{bs.CompressionZstd, 4})
+	}
+	sizes := []int{70 << 10, 200 << 10, 600 << 10}
+	words := []string{"alpha", "bravo", "charlie", "delta", "echo", "foxtrot", "golf", "hotel"}
+	for _, cp := range comps {
+		for _, target := range sizes {
+			cfg := bs.DefaultBloomSearchEngineConfig()
+			cfg.RowDataCompression = cp.t
+			if cp.level > 0 {
+				cfg.ZstdCompressionLevel = cp.level
+			}
+			cfg.MaxBufferedTime = time.Hour
+			cfg.MaxBufferedRows = 1 << 20
+			cfg.MaxBufferedBytes = 1 << 30
+			cfg.MaxRowGroupRows = 1 << 20
+			cfg.MaxRowGroupBytes = 1 << 30
+			env := NewEnv(cfg)
+			h := &History{Env: env, Rows: map[int]*StoredRow{}}
+			id := 0
+			want := map[int]int{}
+			mkBatch := func(bytesWanted int) []map[string]any {
+				var batch []map[string]any
+				got := 0
+				for got < bytesWanted {
+					id++
+					var sb strings.Builder
+					for w := 0; w < 20+r.IntN(60); w++ {
+						if r.Chance(0.3) {
+							fmt.Fprintf(&sb, "%x ", r.IntN(1<<30)) // incompressible part
+						} else {
+							sb.WriteString(pick(r, words) + " ")
+						}
+					}
+					batch = append(batch, map[string]any{"_id": id, "msg": sb.String()})
+					want[id] = 1
+					got += sb.Len() + 24
+				}
+				return batch
+			}
+			replay := map[string]any{"compression": string(cp.t), "zstd_level": cp.level, "uncompressed_target_bytes": target}
+			check := func(stage string) bool {
+				layout, err := h.Layout()
+				if err != nil {
+					c.r.Add(Finding{Kind: "violation", Check: "read-back", Detail: fmt.Sprintf("%s: a file with a large %s block (about %d uncompressed bytes) does not read back through the public helpers: %v", stage, cp.t, target, err), Replay: replay})
+					return false
+				}
+				got := map[int]int{}
+				for _, f := range layout {
+					for _, b := range f.Blocks {
+						for _, rid := range b.RowIDs {
+							got[rid]++
+						}
+						if b.Meta.Compression == bs.CompressionSnappy {
+							raw := f.Bytes[b.Meta.RowDataOffset : b.Meta.RowDataOffset+b.Meta.RowDataSize]
+							if p := snappyFramingProblem(raw); p != "" {
+								c.r.Add(Finding{Kind: "violation", Check: "compression-label", Detail: fmt.Sprintf("%s: block metadata says compression=snappy, but the stored row data (%d bytes, %d uncompressed) %s", stage, len(raw), b.Meta.UncompressedSize, p), Replay: replay})
+							}
+						}
+						if b.Meta.Compression == bs.CompressionZstd {
+							raw := f.Bytes[b.Meta.RowDataOffset : b.Meta.RowDataOffset+b.Meta.RowDataSize]
+							if len(raw) < 4 || binary.LittleEndian.Uint32(raw) != 0xFD2FB528 {
+								c.r.Add(Finding{Kind: "violation", Check: "compression-label", Detail: fmt.Sprintf("%s: block metadata says compression=zstd, but the stored row data does not start with the zstd frame magic", stage), Replay: replay})
+							}
+						}
+					}
+				}
+				if fmt.Sprint(got) != fmt.Sprint(want) {
+					c.r.Add(Finding{Kind: "violation", Check: "read-back", Detail: fmt.Sprintf("%s: rows read back from large blocks differ from the rows written (%d ids written, %d read)", stage, len(want), len(got)), Replay: replay})
+					return false
+				}
+				out := env.Query(&bs.Query{})
+				if gotQ := idsOf(out.Rows); out.Err != nil || fmt.Sprint(gotQ) != fmt.Sprint(want) {
+					c.r.Add(Finding{Kind: "violation", Check: "read-back", Detail: fmt.Sprintf("%s: a match-all query over large %s blocks returned %d of %d rows (err %v)", stage, cp.t, len(gotQ), len(want), out.Err), Replay: replay})
+					return false
+				}
+				return true
+			}
+			env.IngestWait(mkBatch(target))
+			c.r.Case(true, fmt.Sprint("large-block", cp.t, cp.level, target))
+			c.r.Hit("c17.large-block." + string(cp.t))
+			if check("after flush") {
+				env.IngestWait(mkBatch(target / 2))
+				if _, err := env.Eng.Merge(context.Background()); err != nil {
+					c.r.Add(Finding{Kind: "violation", Check: "read-back", Detail: fmt.Sprintf("merging two files with large %s blocks failed: %v", cp.t, err), Replay: replay})
+				} else {
+					check("after merge")
+				}
+			}
+			env.Stop()
+		}
+	}
+}
+
+// c17TransientWriteFaults: "every file produced by flush or merge" includes the files of histories in which a
+// store call failed once. For every call position of a flush and of a merge a single failure is injected;
+// whatever the engine then commits to the MetaStore must parse with ReadFileMetadata, agree with the
+// MetaStore's copy and read back through the helpers.
+func c17TransientWriteFaults(c *ctx) {
+	for _, op := range []string{"flush", "merge"} {
+		for k := 1; k <= 16; k++ {
+			cfg := bs.DefaultBloomSearchEngineConfig()
+			cfg.PartitionFunc = partitionFunc("p")
+			cfg.MaxBufferedTime = time.Hour
+			cfg.RowDataCompression = bs.CompressionNone
+			env := NewEnv(cfg)
+			h := &History{Env: env, Rows: map[int]*StoredRow{}}
+			env.IngestWait([]map[string]any{{"_id": 1, "p": "a", "m": "one"}, {"_id": 2, "p": "b", "m": "two"}})
+			if op == "merge" {
+				env.IngestWait([]map[string]any{{"_id": 3, "p": "a", "m": "three"}, {"_id": 4, "p": "b", "m": "four"}})
+			}
+			env.Data.ResetLog()
+			env.Data.SetFaults([]string{"create", "write", "close"}, k)
+			var opErr error
+			if op == "flush" {
+				opErr = env.IngestWait([]map[string]any{{"_id": 5, "p": "a", "m": "five"}, {"_id": 6, "p": "b", "m": "six"}})
+			} else {
+				_, opErr = env.Eng.Merge(context.Background())
+			}
+			reached := injectedFailure(env.Data.Log(), "create") || injectedFailure(env.Data.Log(), "write") || injectedFailure(env.Data.Log(), "close")
+			env.Data.ClearFaults()
+			replay := map[string]any{"operation": op, "failed_store_call_index": k, "result": fmt.Sprint(opErr)}
+			c.r.Case(reached, fmt.Sprint("transient-write-fault", op, k))
+			c.r.Hit("c17.transient-fault." + op)
+			files, _ := AllFiles(env.Meta)
+			pub := env.Data.Published()
+			for _, f := range files {
+				data := pub[string(f.PointerBytes)]
+				md, _, err := bs.ReadFileMetadata(bytes.NewReader(data))
+				if err != nil {
+					c.r.Add(Finding{Kind: "violation", Check: "read-back", Detail: fmt.Sprintf("after a %s in which store call %d failed once (result: %v), committed file %s does not parse with ReadFileMetadata: %v", op, k, opErr, f.PointerBytes, err), Replay: replay})
+					continue
+				}
+				if len(md.DataBlocks) != len(f.Metadata.DataBlocks) {
+					c.r.Add(Finding{Kind: "violation", Check: "metadata-copy", Detail: fmt.Sprintf("committed file %s: footer lists %d blocks, the MetaStore copy %d", f.PointerBytes, len(md.DataBlocks), len(f.Metadata.DataBlocks)), Replay: replay})
+				}
+			}
+			if _, err := h.Layout(); err != nil {
+				c.r.Add(Finding{Kind: "violation", Check: "read-back", Detail: fmt.Sprintf("after a %s in which store call %d failed once (result: %v), a committed file does not read back through the public helpers: %v", op, k, opErr, err), Replay: replay})
+			}
+			env.Stop()
+		}
+	}
+}
+
+// c18SharedVocabulary (C18): partitions of one flush that use the same field paths and the same tokens but pair
+// them differently (and rows without any per-row unique value), so that block-level and file-level entry SETS
+// coincide for fields and tokens and differ only in the field:token pairs. Every Lean-model entry of every
+// stored row must test positive in its block's and in its file's filters, after the flush and after a merge,
+// and a FieldToken query for a pair stored in one block only must return that row.
+func c18SharedVocabulary(c *ctx) {
+	r := NewRng(c.seed, 174)
+	colours := []string{"red", "blue", "green", "amber"}
+	fields := []string{"a", "b", "c", "d"}
+	for i := 0; i < 6*c.scale; i++ {
+		n := 2 + i%3 // partitions = rotation count
+		cfg := bs.DefaultBloomSearchEngineConfig()
+		cfg.MaxBufferedTime = time.Hour
+		cfg.RowDataCompression = pick(r, []bs.CompressionType{bs.CompressionNone, bs.CompressionSnappy})
+		cfg.PartitionFunc = func(row map[string]any) string { s, _ := row["a"].(string); return "part-" + s }
+		env := NewEnv(cfg)
+		mk := func() []map[string]any {
+			var batch []map[string]any
+			for rot := 0; rot < n; rot++ {
+				row := map[string]any{}
+				for f := 0; f < n; f++ {
+					row[fields[f]] = colours[(f+rot)%n]
+				}
+				batch = append(batch, row)
+				if r.Chance(0.4) {
+					batch = append(batch, row) // the same row twice adds no entry
+				}
+			}
+			r.Shuffle(len(batch), func(x, y int) { batch[x], batch[y] = batch[y], batch[x] })
+			return batch
+		}
+		check := func(stage string) {
+			files, _ := AllFiles(env.Meta)
+			pub := env.Data.Published()
+			for _, f := range files {
+				data := pub[string(f.PointerBytes)]
+				meta, _, err := bs.ReadFileMetadata(bytes.NewReader(data))
+				if err != nil {
+					c.r.Add(Finding{Kind: "violation", Check: "read-back", Detail: err.Error(), Replay: map[string]any{"stage": stage}})
+					continue
+				}
+				for _, bm := range meta.DataBlocks {
+					rows, err := bs.ReadDataBlockRowData(bytes.NewReader(data), &bm)
+					fl, err2 := bs.ReadDataBlockBloomFilters(bytes.NewReader(data), bm)
+					if err != nil || err2 != nil {
+						c.r.Add(Finding{Kind: "violation", Check: "read-back", Detail: fmt.Sprint(err, err2), Replay: map[string]any{"stage": stage}})
+						continue
+					}
+					sc := bs.NewBlockRowScanner(rows)
+					for {
+						rb, ok, err := sc.Next()
+						if err != nil || !ok {
+							break
+						}
+						ef, et, eft := modelEntries(c, tokModes[0], rb)
+						probe := func(fl *bloom.BloomFilter, entries []string, level, kind string) {
+							for _, e := range entries {
+								if fl != nil && !fl.TestString(e) {
+									c.r.Add(Finding{Kind: "violation", Check: level + "-filter-missing-entry", Detail: fmt.Sprintf("%s: %s %s filter of a file with %d blocks does not contain entry %q of stored row %s (partition %q)", stage, level, kind, len(meta.DataBlocks), e, rb, bm.PartitionID),
+										Replay: map[string]any{"stage": stage, "partitions": n, "row": string(rb), "file": string(f.PointerBytes)}})
+									return
+								}
+							}
+						}
+						probe(fl.FieldBloomFilter, ef, "block", "field")
+						probe(fl.TokenBloomFilter, et, "block", "token")
+						probe(fl.FieldTokenBloomFilter, eft, "block", "field-token")
+						probe(meta.BloomFilters.FieldBloomFilter, ef, "file", "field")
+						probe(meta.BloomFilters.TokenBloomFilter, et, "file", "token")
+						probe(meta.BloomFilters.FieldTokenBloomFilter, eft, "file", "field-token")
+					}
+				}
+			}
+			// every stored pair is found by its FieldToken query
+			for rot := 0; rot < n; rot++ {
+				for f := 0; f < n; f++ {
+					out := env.Query(bs.NewQuery().FieldToken(fields[f], colours[(f+rot)%n]).Build())
+					if len(out.Rows) == 0 || out.Err != nil {
+						c.r.Add(Finding{Kind: "violation", Check: "file-filter-missing-entry", Detail: fmt.Sprintf("%s: FieldToken(%s, %s) returns no row although a stored row holds that pair (err %v)", stage, fields[f], colours[(f+rot)%n], out.Err), Replay: map[string]any{"stage": stage, "partitions": n}})
+					}
+				}
+			}
+		}
+		env.IngestWait(mk())
+		c.r.Case(true, fmt.Sprint("shared-vocabulary", i, n))
+		c.r.Hit("c18.shared-vocabulary")
+		check("after one flush")
+		env.IngestWait(mk())
+		if _, err := env.Eng.Merge(context.Background()); err == nil {
+			check("after merge")
 		}
 		env.Stop()
 	}
